@@ -14,6 +14,11 @@ def main():
     ap.add_argument('--no-shrink', action='store_true')
     a = ap.parse_args()
     os.environ.setdefault('PYTHONHASHSEED', '0')
+    if sys.flags.bytes_warning:
+        # under -b / -bb a bytes/str or bytes/int comparison is an error *of the library*; the checks themselves compare decoded values of
+        # any type with expected ones (a wrong type is a finding to report, not a reason to crash the harness)
+        import warnings
+        warnings.filterwarnings('ignore', category=BytesWarning, module=r'vf(\.|$)')
     seed = int(os.environ.get('VERIF_SEED', '1') or '1')
     from vf import core
     modname = 'vf.checks.%s' % a.prop.lower()
